@@ -271,7 +271,7 @@ impl Check for C09 {
     }
 }
 
-fn collect_binders(x: &Expr, out: &mut Vec<VarId>) {
+pub fn collect_binders(x: &Expr, out: &mut Vec<VarId>) {
     fn blk(b: &Block, out: &mut Vec<VarId>) {
         for s in &b.stmts {
             match s {
